@@ -8,9 +8,14 @@ options/default read back from NetworkTables are recorded; then a generated call
 sequence (start/periodic/disable under a stepped simulated FPGA clock, run()
 periods in a worker thread stepped through DriverStationSim/stepTiming,
 endCompetition) is executed with both selection sources set through
-NetworkTables, and the callback log is recorded.  The same layouts, call
+NetworkTables, and the callback log is recorded.  Layout dimensions include the way
+a constructor fails (CTOR_FAILS: __init__/__new__/metaclass raising, abstract
+class, missing argument) and, for implicit namespace packages, the shape of
+__path__ (NS_PATHS: the directory listed again because sys.path lists its root
+again, two roots contributing different modules); sys.path is arranged per case
+and restored afterwards.  The same layouts, call
 sequences and clock readings are evaluated by the Coq model
-(Selector.Corr.check_case, vm_compute) and compared there.
+(Selector.Corr.check_case_any, vm_compute) and compared there.
 
 The implementation runs in worker subprocesses (`python -m harness.c14 --worker`)
 so that HAL/NT state and a hanging run() cannot affect the check itself.
@@ -1673,7 +1678,10 @@ def shrink(case, fails):
 
 def run(ctx):
     ctx.assumptions.append(
-        "C14: glob order and inspect.getmembers order are inputs (as observed); instance.MODE_NAME equals the class "
+        "C14: glob order and inspect.getmembers order are inputs (as observed); the order in which the distinct "
+        "directories of an implicit package's __path__ are scanned is left open (set iteration: the model may agree "
+        "for any order); whether the attempt to call a class that cannot be constructed shows in the constructor "
+        "log is not compared (at most once); instance.MODE_NAME equals the class "
         "attribute; mode callbacks do not raise (C07's fault space); SendableChooser/SmartDashboard/NetworkTables, "
         "wpilib.Timer and the simulated DriverStation/FPGA clock are modelled (dict with overwrite, integer "
         "microseconds) and validated only by the correspondence")
